@@ -120,6 +120,41 @@ def txLen (tx : Tx) : Nat :=
     + bytesLen tx.data
     + (varintLen tx.sigs.length + (tx.sigs.map bytesLen).sum)
 
+
+/-! ### the serialisation itself (`stdcode::serialize(tx)`): what `txLen` measures and what the transaction hashes are taken of -/
+
+def encodeCoinID (c : CoinID) : Bytes := c.txhash ++ [UInt8.ofNat c.index]
+
+def encodeCoinData (c : CoinData) : Bytes :=
+  c.covhash ++ putVarint c.value ++ putBytes c.denom.toBytes ++ putBytes c.additionalData
+
+/-- a sequence: its length as a varint, then the elements -/
+def encodeList {α} (f : α → Bytes) (l : List α) : Bytes := putVarint l.length ++ l.flatMap f
+
+/-- `stdcode::serialize(tx)`: kind byte, inputs, outputs, fee, covenants, data, signatures -/
+def encodeTx (tx : Tx) : Bytes :=
+  [UInt8.ofNat tx.kind.toNat] ++ encodeList encodeCoinID tx.inputs ++ encodeList encodeCoinData tx.outputs
+    ++ putVarint tx.fee ++ encodeList putBytes tx.covenants ++ putBytes tx.data ++ encodeList putBytes tx.sigs
+
+/-- the preimage of `hash_nosigs`: the serialisation with the signatures cleared -/
+def encodeTxNoSigs (tx : Tx) : Bytes := encodeTx { tx with sigs := [] }
+
+/-- a denomination as the Rust type can hold it: a custom token's name is a 32-byte hash -/
+def DenomOk : Denom → Prop
+  | .custom h => h.length = 32
+  | _ => True
+
+/-- a transaction as the Rust types can hold it: hashes of 32 bytes, indices below 256, values below 2^128, lengths
+    below 2^64 -/
+structure TxOk (tx : Tx) : Prop where
+  inputs : ∀ c ∈ tx.inputs, c.txhash.length = 32 ∧ c.index < 256
+  outputs : ∀ o ∈ tx.outputs, o.covhash.length = 32 ∧ o.value < 2 ^ 128 ∧ DenomOk o.denom ∧ o.additionalData.length < 2 ^ 64
+  fee : tx.fee < 2 ^ 128
+  counts : tx.inputs.length < 2 ^ 64 ∧ tx.outputs.length < 2 ^ 64 ∧ tx.covenants.length < 2 ^ 64 ∧ tx.sigs.length < 2 ^ 64
+  covenants : ∀ c ∈ tx.covenants, c.length < 2 ^ 64
+  data : tx.data.length < 2 ^ 64
+  sigs : ∀ c ∈ tx.sigs, c.length < 2 ^ 64
+
 /-- what the harness supplies next to a transaction agrees with what the model computes from its content -/
 def suppliedAgrees (tx : Tx) : Bool :=
   tx.rawLen == txLen tx && tx.stakeDoc == decodeStakeDoc tx.data &&
